@@ -214,7 +214,7 @@ struct Dec { imports: Vec<(u64, u64)>, funcs: Vec<u64>, globals: Vec<u64>, mems:
 
 /// `elem_sites`: site numbers of the element items in segment order; `init_sites`: site numbers of the live
 /// initialiser references in creation order of their globals, per flavour (getter, ref.func)
-fn decode(out: &[u8], elem_sites: &[usize], start_site: Option<usize>, init_get: &[usize], init_ref: &[usize], elem_off: Option<usize>, table_init: Option<usize>, base_funcs: &[u64]) -> Option<Dec> {
+fn decode(out: &[u8], elem_sites: &[usize], start_site: Option<usize>, init_get: &[usize], init_ref: &[usize], elem_off: Option<usize>, table_init: Option<usize>, base_funcs: &[u64], typed_built: &[(u64, u32)]) -> Option<Dec> {
     let mut d = Dec { imports: vec![], funcs: vec![], globals: vec![], mems: vec![], sites: vec![] };
     let mut fn_types: Vec<u32> = vec![];
     let mut elem_seen = 0usize; let mut nget = 0usize; let mut nref = 0usize;
@@ -318,6 +318,8 @@ fn decode(out: &[u8], elem_sites: &[usize], start_site: Option<usize>, init_get:
                 // builder's deduplication returns)
                 let ty = fn_types.get(d.funcs.len()).copied();
                 if base_funcs.contains(&fp) && ty != Some(fn_ty(fp)) { fp += WRONG_TYPE; }
+                // a function that replaced an import has the type the import was declared with
+                else if let Some((_, t)) = typed_built.iter().find(|(f, _)| *f == fp) { if ty != Some(*t) { fp += WRONG_TYPE; } }
                 d.funcs.push(fp);
             }
             _ => {}
@@ -465,6 +467,9 @@ fn gen_case(r: &mut Rng, prop: &str, seed: u64, idx: u64) -> Case {
     let mut known: [Vec<u64>; 3] = [(0..len[0]).collect(), (0..len[1]).collect(), (0..len[2]).collect()];
     let mut deleted: [Vec<u64>; 3] = [vec![], vec![], vec![]];
     let mut nimports_total = base.imports.len() as u64;
+    // a function that replaces an import keeps the import's declared type index: (fingerprint of the built function, type index)
+    let mut typed_built: Vec<(u64, u32)> = vec![];
+    let typed_built_cell = std::cell::RefCell::new(&mut typed_built);
     let mut dead_globals: Vec<u64> = vec![];
     let res = catch_unwind(AssertUnwindSafe(|| {
         let mut module = Module::parse(&bytes, true).expect("parse");
@@ -561,6 +566,7 @@ fn gen_case(r: &mut Rng, prop: &str, seed: u64, idx: u64) -> Case {
                     HOp::Delete(Sp::M, id) => { module.delete_memory(MemoryID(*id as u32)); None }
                     HOp::LocalToImport(id, fp) => { module.convert_local_fn_to_import(FunctionID(*id as u32), "env".into(), format!("i{fp}"), TypeID(fn_ty(*fp))); None }
                     HOp::ImportToLocal(k, fp) => {
+                        if let Some(imp) = module.imports.iter().nth(*k as usize) { if let wasmparser::TypeRef::Func(t) = imp.ty { typed_built_cell.borrow_mut().push((*fp, t)); } }
                         let mut fb = FunctionBuilder::new(&[], &[]);
                         fb.i32_const(*fp as i32); fb.drop();
                         for (j, s) in body_sites.iter().enumerate() { for o in code_site_ops(first_site + j, s) { fb.inject(o); } }
@@ -647,12 +653,12 @@ fn gen_case(r: &mut Rng, prop: &str, seed: u64, idx: u64) -> Case {
     let enc: Option<(Vec<u8>, bool, Option<Vec<u8>>)> = match res { Ok(x) => x, Err(_) => { api_panic = true; None } };
     let live_init = |getter: bool| -> Vec<usize> { init_owner_ids.iter().filter(|(g, _, ig)| *ig == getter && !dead_globals.contains(g)).map(|(_, s, _)| *s).collect() };
     let (dec, valid, same2) = match &enc {
-        Some((out, same, _)) => (decode(out, &elem_sites, base.start, &live_init(true), &live_init(false), base.elem_off, base.table_init, &base.funcs), validates(out), *same),
+        Some((out, same, _)) => (decode(out, &elem_sites, base.start, &live_init(true), &live_init(false), base.elem_off, base.table_init, &base.funcs, &typed_built), validates(out), *same),
         None => (None, false, true),
     };
     // what the SECOND encode() emitted (C05): None = it panicked (or the first one did)
     let dec2: Option<Option<Dec>> = match &enc {
-        Some((_, _, Some(out2))) => Some(decode(out2, &elem_sites, base.start, &live_init(true), &live_init(false), base.elem_off, base.table_init, &base.funcs)),
+        Some((_, _, Some(out2))) => Some(decode(out2, &elem_sites, base.start, &live_init(true), &live_init(false), base.elem_off, base.table_init, &base.funcs, &typed_built)),
         _ => None,
     };
     let undecodable = enc.is_some() && dec.is_none();
